@@ -182,6 +182,43 @@ class Gen:
         self.w("}")
         return name
 
+    def all_tag_paths(self):
+        """('types'|'messages', name, ...) for every entity that has a tag"""
+        out = []
+        s = self.s
+
+        def comp(c, path):
+            for el in c.elements:
+                out.append(path + [el.name])
+                if isinstance(el, Composite):
+                    comp(el, path + [el.name])
+                elif isinstance(el, Enum):
+                    for v in el.values:
+                        out.append(path + [el.name, v.name])
+                elif isinstance(el, Set):
+                    for ch in el.choices:
+                        out.append(path + [el.name, ch.name])
+        for enc in s.type_order:
+            out.append(["types", enc.name])
+            if isinstance(enc, Composite):
+                comp(enc, ["types", enc.name])
+            elif isinstance(enc, Enum):
+                for v in enc.values:
+                    out.append(["types", enc.name, v.name])
+            elif isinstance(enc, Set):
+                for ch in enc.choices:
+                    out.append(["types", enc.name, ch.name])
+
+        def level(l, path):
+            for mbr in l.fields + l.groups + l.data:
+                out.append(path + [mbr.name])
+            for g in l.groups:
+                level(g, path + [g.name])
+        for m in s.messages:
+            out.append(["messages", m.name])
+            level(m, ["messages", m.name])
+        return out
+
     # ----------------------------------------------------------------- all
     def generate(self):
         s = self.s
@@ -211,6 +248,22 @@ class Gen:
         for m in s.messages:
             fn = self.level_fn(m, [m.name])
             mfns.append((m, fn))
+        # name anchors: canonical types of every public name (read from the AST
+        # as record aliases by the analysers; also a reachability witness)
+        self.w("struct names")
+        self.w("{")
+        for enc in s.type_order:
+            pub = "%s::types::%s" % (self.ns, enc.name)
+            if isinstance(enc, Composite) or (isinstance(enc, Type) and enc.length != 1 and not enc.is_constant):
+                self.w("    using ty__%s = %s<char>;" % (enc.name, pub))
+            elif not (isinstance(enc, Type) and enc.is_constant):
+                self.w("    using ty__%s = %s;" % (enc.name, pub))
+        for m in s.messages:
+            self.w("    using msg__%s = %s::messages::%s<char>;" % (m.name, self.ns, m.name))
+        self.w("    using tag__schema = %s::schema;" % self.ns)
+        for path in self.all_tag_paths():
+            self.w("    using tag__%s = %s::schema::%s;" % ("__".join(path), self.ns, "::".join(path)))
+        self.w("};")
         # instantiation driver
         self.w("inline void drive(char* p, const char* cp, std::size_t n)")
         self.w("{")
